@@ -154,21 +154,8 @@ func ruleC05(c *Ctx, r *Result) {
 			if len(cl.Blocks) > 0 && edgeDominates(cl.Blocks[0], cl.Blocks[0].Succs[0], ret.Block()) {
 				continue // already closed
 			}
-			ok := mustPrecede(ret, func(in ssa.Instruction) bool {
-				switch x := in.(type) {
-				case *ssa.Call:
-					return c.calleeName(x) == "core.Superblock.UpdateEndOfFileAddress" || c.calleeName(x) == "core.Superblock.WriteTo"
-				case *ssa.If:
-					// `if eof != recorded && ... { update }`: the guard stands for the update when its condition is about the end of file
-					// and the guarded arm reaches the update on every path that goes on to succeed
-					if !condMentionsEOF(c, x.Cond, 0) {
-						return false
-					}
-					return armAlwaysCalls(c, x.Block().Succs[0], cl, "core.Superblock.UpdateEndOfFileAddress")
-				}
-				return false
-			})
-			r.CheckMissing(c, cl, ok, "C05.2", c.Name(cl)+"#eof-updated-before-success", c.InstrPos(ret), "Close rewrites the end-of-file address (when the allocator moved) before it reports success")
+			ok := mustPrecede(ret, c.eofUpdatePred(cl, 0))
+			r.Check(ok, "C05.2", c.Name(cl)+"#eof-updated-before-success", c.InstrPos(ret), "Close rewrites the end-of-file address (when the allocator moved) before it reports success")
 		}
 		// the value written is the allocator's end of file
 		for _, site := range callsIn(cl) {
@@ -791,4 +778,47 @@ func sameCursorLoad(a, b Lin) bool {
 		}
 	}
 	return true
+}
+
+// eofUpdatePred: instructions of fn that stand for "the superblock's end-of-file address is brought up to date": the update
+// call itself; a test that involves the allocator's end of file whose "differs" arm reaches the update on every path that
+// goes on to succeed; or a call of a root-package helper every successful return of which lies behind such an instruction.
+func (c *Ctx) eofUpdatePred(fn *ssa.Function, depth int) func(ssa.Instruction) bool {
+	return func(in ssa.Instruction) bool {
+		switch x := in.(type) {
+		case *ssa.Call:
+			n := c.calleeName(x)
+			if n == "core.Superblock.UpdateEndOfFileAddress" || n == "core.Superblock.WriteTo" {
+				return true
+			}
+			if g := x.Call.StaticCallee(); g != nil && g.Blocks != nil && depth < 1 && shortPkg(fnPkgPath(g)) == "hdf5" && g != fn {
+				rets := successReturns(g)
+				if len(rets) == 0 {
+					return false
+				}
+				p := c.eofUpdatePred(g, depth+1)
+				for _, rt := range rets {
+					if !mustPrecede(rt, p) {
+						return false
+					}
+				}
+				// and the helper does contain the update
+				for _, s2 := range callsIn(g) {
+					if c.calleeName(s2) == "core.Superblock.UpdateEndOfFileAddress" {
+						return true
+					}
+				}
+			}
+		case *ssa.If:
+			if !condMentionsEOF(c, x.Cond, 0) {
+				return false
+			}
+			differ := x.Block().Succs[0]
+			if bo, ok := x.Cond.(*ssa.BinOp); ok && bo.Op == token.EQL {
+				differ = x.Block().Succs[1]
+			}
+			return armAlwaysCalls(c, differ, fn, "core.Superblock.UpdateEndOfFileAddress")
+		}
+		return false
+	}
 }
